@@ -126,7 +126,9 @@ func callGFunction(L *LState, tailcall bool) bool {
 		wantret = gfnret
 	}
 
-	if tailcall && L.Parent != nil && L.stack.Sp() == 1 {
+	// the Go function was the last frame of a coroutine: tail-called by the
+	// body, or the body itself (coroutine.create(gofunction))
+	if L.Parent != nil && L.stack.Sp() == 1 {
 		switchToParentThread(L, wantret, false, true)
 		return true
 	}
